@@ -42,6 +42,11 @@ CLAIMED = {
          "The configuration product is enumerated completely in both tiers (quick: 2 advertised AUTH lists, thorough: 7); credentials are fresh random tokens per case.",
          "Real TCP on 127.0.0.1/127.0.0.2; the harness CA is installed as the only system root through SSL_CERT_FILE so that the client's default verification is what is tested; server behaviours are the enumerated ones, not arbitrary byte streams.",
          "DESIGN.md section 3, C07"),
+ "C09": ("exploration",
+         "grammar-based EML generator + structure-aware mutations + renderings of generated messages + arbitrary bytes, under six reader behaviours (rapid); repository fixtures and a hostile-constant corpus under every reader behaviour; thorough adds native coverage-guided fuzzing (go test -fuzz) with the oracle inside the target; oracle: returns without panic within a generous wall-clock bound",
+         "Generated-input search for crashes and hangs; sampled. Native fuzzing cannot be pinned to a seed: its campaigns are evidence of effort, its crashers are the reproducible artefact.",
+         "Inputs up to 64 KiB; termination is observed (20 s bound, must repeat three times), not proved.",
+         "DESIGN.md section 3, C09"),
  "C11": ("exploration",
          "rapid-generated message programs x generated histories of render operations (WriteTo, Write, NewReader, UpdateReader, WriteToFile, WriteToTempFile, failed renders by sink or producer fault); metamorphic oracle: every successful output is byte-identical to the first",
          "Generated histories against a byte-equality oracle; shapes, file sources/encodings and op sequences are sampled by rapid. Map-order dependent differences need several renders to show, so every history renders at least 4 times.",
